@@ -187,6 +187,15 @@ func (o *objectImpl) SetProperty(name value.Value, newValue value.Value) error {
 		return fmt.Errorf("invalid signature: %s", err)
 	}
 	data := buf.Bytes()
+	// the value must be of the declared type: the validator and the
+	// subscribers decode the data with the signature of the property.
+	for _, property := range o.meta.Properties {
+		if property.Name == nameStr && property.Signature != sig &&
+			property.Signature != "("+sig+")" {
+			return fmt.Errorf("property %s: unexpected signature %s, expecting %s",
+				nameStr, sig, property.Signature)
+		}
+	}
 	vhook.Gate("prop.set.validate", "name", nameStr, "data", data)
 	err = o.onPropertyChange(nameStr, data)
 	if err != nil {
